@@ -132,10 +132,15 @@ class _Handler(http.server.BaseHTTPRequestHandler):
             boundary = "b'%s(%x)+_,-./:=?%x" % (boundary[:6], owner.rnd.getrandbits(16), owner.rnd.getrandbits(12))
         body = b""
         cuts = []
+        hdr_k = owner.cut_at_parts[1] if isinstance(owner.cut_at_parts, (tuple, list)) else None
         for s, e in rs:
             body += ("\r\n--%s\r\nContent-Type: application/octet-stream\r\nContent-Range: bytes %d-%d/%d\r\n\r\n"
-                     % (boundary, s, e, total)).encode() + data[s:e + 1]
-            cuts.append(len(body))
+                     % (boundary, s, e, total)).encode()
+            if hdr_k is not None:
+                cuts.append(len(body) - 4 + hdr_k)   # a piece ends hdr_k bytes into the CRLFCRLF that ends this part header
+            body += data[s:e + 1]
+            if hdr_k is None:
+                cuts.append(len(body))
         body += ("\r\n--%s--\r\n" % boundary).encode()
         if owner.cut_at_parts:
             self._cuts = cuts
@@ -163,7 +168,8 @@ class RangeServer:
         self.ignore_invalid_range = False
         self.piece_delay = 0.0     # seconds between two pieces (so that the client really sees them separately)
         self.boundary_style = "hex"   # "rfc": boundaries using the punctuation RFC 2046 allows, apostrophe included
-        self.cut_at_parts = False     # multipart bodies delivered in pieces ending exactly at each part's last data byte
+        self.cut_at_parts = False     # True: multipart bodies delivered in pieces ending exactly at each part's last data byte;
+                                      # ("hdr", k): pieces ending k bytes into the blank line that ends each part header
         self.httpd = None
         self.thread = None
         self.port = None
